@@ -9,6 +9,7 @@ from dalimc.spec.responses import RESPONSES, mangle
 ID = "C06"
 OPTIMISED_STRIDE = {"quick": 8, "thorough": 8}      # every k-th shard once more in an interpreter started with -O
 TRACE_STRIDE = {"quick": 8, "thorough": 8}      # every k-th shard once more with logging enabled down to TRACE
+BYTEORDER_STRIDE = {"quick": 10, "thorough": 10}      # every k-th shard once more with sys.byteorder reporting a big-endian host
 CHAIN_STRIDE = {'quick': 6, 'thorough': 6}      # every k-th shard is re-run in chains inside one process (non-initial process states)
 LEVEL = "exploration"
 TECHNIQUE = "exhaustive finite-domain enumeration of the real response classes against a reference kind table"
